@@ -1755,7 +1755,7 @@ class SymEx:
             if fv[1] == "methodcaller" and isinstance(fv[2], str):
                 return self.apply(self._attr(args[0], fv[2]), (), (), st, node)
         if k == "attr":
-            cq = self.class_of_value(fv[1])
+            cq = self.class_of_object(fv[1])
             if cq is not None:
                 m = self.tree.lookup_method(self.tree.classes[cq], fv[2])
                 if m is not None:
@@ -2125,6 +2125,10 @@ class SymEx:
         """Left fold of ``step(accumulator, element)`` over an iterable: known elements are applied one after the other,
         the elements of a comprehension / an unknown iterable give ``("fold", eaches, init, step value, head)`` where
         ``head = ("carried", name, n)`` stands for the accumulator before the step."""
+        if isinstance(iterable, tuple) and iterable and iterable[0] == "phi":
+            # the collection was built differently on different paths (`xs.insert(0, c)` under an `if`): the fold of
+            # each alternative, under the condition of that alternative
+            return self._per_alternative(iterable, lambda x: self._fold(step, x, init, name))
         col = self._elements(iterable)
         if col is None:
             return None
@@ -2141,11 +2145,33 @@ class SymEx:
             acc = ("fold", tuple(w for kind, w in wraps if kind == "foreach"), acc, value, head)
         return acc
 
+    def _per_alternative(self, phi, f, st: "State | None" = None):
+        """``f`` applied to every alternative of a conditional value, as the conditional value of the results (None if one
+        of them is not read).  What ``f`` does (calls it records) happens under the condition of the alternative."""
+        alts = []
+        for p, x in phi[1]:
+            before = st.pc if st is not None else None
+            if st is not None:
+                st.pc = before + tuple(c for c in p if c not in before)
+            try:
+                r = self._per_alternative(x, f, st) if isinstance(x, tuple) and x and x[0] == "phi" else f(x)
+            finally:
+                if st is not None:
+                    st.pc = before
+            if r is None:
+                return None
+            alts.append((p, r))
+        if alts and all(r == alts[0][1] for _, r in alts):
+            return alts[0][1]
+        return ("phi", tuple(alts))
+
     def _library(self, name: str, args, kwargs, st):
         """Standard-library combinators that only re-spell a loop, a call or a tuple."""
         if name == "functools.partial" and args:
             return ("partial", args[0], tuple(args[1:]), tuple(kwargs))
         if name == "functools.reduce" and 2 <= len(args) <= 3 and not kwargs:
+            if args[1][0] == "phi":
+                return self._per_alternative(args[1], lambda x: self._library(name, (args[0], x, *args[2:]), kwargs, st), st)
             if len(args) == 2:
                 seq = self._plain(args[1])
                 if seq is None:
@@ -2330,6 +2356,59 @@ class SymEx:
             return v[1][1]
         return None
 
+    def class_of_object(self, v) -> str | None:
+        """The class of an object value: one that was constructed in the analysed code, or one that the instance of the
+        analysed class OWNS (``self.<attr>`` where every binding of that attribute in the package is ``self.<attr> =
+        Cls(...)`` inside the class hierarchy of the analysed method: the object is a ``Cls``, never a subclass)."""
+        cq = self.class_of_value(v)
+        if cq is not None:
+            return cq
+        if isinstance(v, tuple) and len(v) == 3 and v[0] == "attr" and v[1] == ("param", "self") and isinstance(v[2], str):
+            return self._owned_class(v[2])
+        return None
+
+    def _owned_class(self, attr: str) -> str | None:
+        top = self.root
+        while top is not None and top.outer is not None:
+            top = top.outer
+        if top is None or top.cls is None or not top.params or top.params[0] != "self":
+            return None
+        if any(unparse(d).split(".")[-1] in {"staticmethod", "classmethod"} for d in top.node.decorator_list):
+            return None
+        cache = self.__dict__.setdefault("_owned_cache", {})
+        if attr in cache:
+            return cache[attr]
+        cls = top.cls
+        family = [cls, *self.tree.subclasses(cls), *[k for k in self.tree.mro(cls) if k is not cls]]
+        private = attr.startswith("__") and not attr.endswith("__")
+        names = {attr} | ({f"_{k.name.lstrip('_')}{attr}" for k in family} if private else set())
+        found: set = set()
+        inside: set = set()
+        for k in family:
+            if attr in k.methods or any(isinstance(n, (ast.Assign, ast.AnnAssign)) and any(isinstance(t, ast.Name) and t.id == attr for t in (n.targets if isinstance(n, ast.Assign) else [n.target])) for n in k.node.body):
+                found.add(None)  # a property / class attribute of that name: not a plain instance attribute
+            for m in k.methods.values():
+                for n in ast.walk(m.node):
+                    tgts = n.targets if isinstance(n, ast.Assign) else [n.target] if isinstance(n, ast.AnnAssign) and n.value is not None else []
+                    for t in tgts:
+                        if isinstance(t, ast.Attribute) and t.attr in names and isinstance(t.value, ast.Name) and m.params and t.value.id == m.params[0] and m.outer is None:
+                            inside.add(id(t))
+                            q = self.tree.resolve(m.module, n.value.func, m) if isinstance(n.value, ast.Call) else None
+                            found.add(q if q in self.tree.classes else None)
+        # any other binding of an attribute of that name (on any receiver, anywhere in the package) may be this one
+        for mod in {f.module.name: f.module for f in self.tree.funcs.values()}.values():
+            for n in ast.walk(mod.tree):
+                if isinstance(n, ast.Attribute) and n.attr in names and isinstance(n.ctx, (ast.Store, ast.Del)) and id(n) not in inside:
+                    found.add(None)
+                elif isinstance(n, ast.Call) and isinstance(n.func, (ast.Name, ast.Attribute)) and (n.func.id if isinstance(n.func, ast.Name) else n.func.attr) in {"setattr", "__setattr__", "delattr"}:
+                    given = [a.value for a in n.args[:2] if isinstance(a, ast.Constant) and isinstance(a.value, str)]  # (obj, name, ..) / (name, ..)
+                    if set(given) & names or (not given and not private):
+                        # set by name: by this very name, or by a computed one (a computed name is not taken to spell the
+                        # mangled name `_Cls__attr` of a private attribute)
+                        found.add(None)
+        cache[attr] = next(iter(found)) if len(found) == 1 and None not in found else None
+        return cache[attr]
+
     def _may_inline(self, callee: FuncInfo, caller: FuncInfo | None, self_val=None) -> bool:
         if callee.qual in self.atoms or callee.name in self.atoms:
             return False
@@ -2347,7 +2426,7 @@ class SymEx:
             return True
         if callee.cls is not None and root is not None and root.cls is not None and callee.cls in self.tree.mro(root.cls):
             return True
-        if callee.cls is not None and self_val is not None and self.class_of_value(self_val) is not None and root is not None and callee.module is root.module:
+        if callee.cls is not None and self_val is not None and self.class_of_object(self_val) is not None and root is not None and callee.module is root.module:
             return self.inline_modules  # method of an object that was constructed here (its class lives in the same module)
         if callee.cls is not None and root is not None and callee.module is root.module and self.inline_modules:
             decos = {unparse(d).split(".")[-1].split("(")[0] for d in callee.node.decorator_list}
